@@ -5,6 +5,7 @@
 package main
 
 import (
+	"encoding/binary"
 	"encoding/hex"
 	"flag"
 	"fmt"
@@ -319,7 +320,17 @@ func modeData(seed uint64, n int, out *sx.Out) {
 					ip[15] = byte(r.Intn(2))
 				}
 				port := r.Intn(65536)
-				body = fmt.Sprintf("saddr=0A00%04X00000000%s00000000", port, strings.ToUpper(hex.EncodeToString(ip)))
+				// sin6_flowinfo (a 20-bit flow label plus traffic class: any value below 2^28) and sin6_scope_id (an interface index) are part of the struct
+				flow, scope := uint32(0), uint32(0)
+				if r.Chance(1, 2) {
+					flow = sx.Pick(r, []uint32{1, 0xFFFF, 0x10000, 0xABCDE, 0xFFFFF, 0x0FFFFFFF, uint32(r.Intn(1 << 28))})
+				}
+				if r.Chance(1, 3) {
+					scope = sx.Pick(r, []uint32{1, 2, 0x100, 0xFFFF, 0x10000, 0x7FFFFFFF})
+				}
+				sc := make([]byte, 4)
+				binary.LittleEndian.PutUint32(sc, scope)
+				body = fmt.Sprintf("saddr=0A00%04X%08X%s%s", port, flow, strings.ToUpper(hex.EncodeToString(ip)), strings.ToUpper(hex.EncodeToString(sc)))
 				wants = append(wants, want{key: "family", value: "ipv6"}, want{key: "addr", value: ipString(ip)}, want{key: "port", value: fmt.Sprint(port)})
 			default:
 				p := "/" + strings.ReplaceAll(genValue(r), "\x00", "x")
